@@ -186,7 +186,7 @@ impl CaseOption {
     ensures
         r matches Ok(b) ==> self.hit(value.vid_of(), runtime) == Some(b),        // [C06:when_matches_by_value_equality]
         r is Err ==> self.hit(value.vid_of(), runtime) is None,
-//@ edit <<for a in &self.args>> => <<for a in it: &self.args>> why: names Verus' ghost iterator so that the invariant can refer to the position
+//@ editre <<for (\w+) in &self\.args>> => <<for \1 in it: &self.args>> why: names Verus' ghost iterator so that the invariant can refer to the position
 //@ loop 0 kind=for
     invariant
         0 <= it.index@ <= self.args@.len(),
@@ -222,7 +222,7 @@ impl Case {
                 Some(t) => final(writer).log@ == old(writer).log@.push(Ev::Child(t.rid(), runtime.ident())),
                 None => final(writer).log@ == old(writer).log@ },
             None => false })),                                                                    // [C06:case_first_matching_arm_else_else]
-//@ edit <<for case in &self.cases>> => <<for case in it: &self.cases>> why: names Verus' ghost iterator so that the invariant can refer to the position
+//@ editre <<for (\w+) in &self\.cases>> => <<for \1 in it: &self.cases>> why: names Verus' ghost iterator so that the invariant can refer to the position
 //@ loop 0 kind=for
     invariant
         0 <= it.index@ <= self.cases@.len(),
